@@ -147,6 +147,9 @@ pub struct Fam {
 pub fn one_actor(g: &mut G, spec: ActorSpec, nclients: usize, kinds: &[HKind], per_client: (u64, u64)) -> Fam {
     let mut sc = Scenario::empty(0);
     let owning = spec.entry.owning();
+    let mut spec = spec;
+    // the order / builder stage in which timeout and fail_on_timeout are configured varies too
+    spec.cfg_order = g.below(6) as u8;
     sc.actors.push(spec);
     sc.setup.push(Op::Spawn { spec: 0, slot: 0 });
     let mut slots: Vec<Slots> = vec![Slots::default(); nclients];
